@@ -130,8 +130,9 @@ def parse_depfile(path: Path) -> list[str] | None:
 
 
 def _norm(p: str) -> str:
-    """Path-independent spelling, so a build directory seeded from another checkout stays valid."""
-    return p.replace(str(BUILD_ROOT), "$BUILD").replace(str(REPO), "$REPO").replace(str(VERIF), "$VERIF")
+    """Path-independent spelling, so a build directory seeded from another checkout stays valid. /tmp/seedkit is the copy of the build
+    layer handed to seeding sub-agents (DESIGN 7.4): both roots spell alike, so the two tools do not invalidate each other's objects."""
+    return p.replace(str(BUILD_ROOT), "$BUILD").replace(str(REPO), "$REPO").replace(str(VERIF), "$VERIF").replace("/tmp/seedkit", "$VERIF")
 
 
 def closure_key(flags: list[str], src: str, deps: list[str]) -> str | None:
